@@ -762,7 +762,11 @@ class Repo:
                 target, recv = cands[0], None
         elif isinstance(f, ast.Name):
             q = f"{fi.module.name}.{f.id}"
-            if q in self.funcs and self.funcs[q].cls is None and self.funcs[q].parent is None:
+            nested = [g for g in self.funcs.values() if g.parent is fi and g.node.name == f.id]
+            if len(nested) == 1:
+                # a closure defined in the caller: its free variables are the caller's own (read at the time of the call)
+                target = nested[0]
+            elif q in self.funcs and self.funcs[q].cls is None and self.funcs[q].parent is None:
                 target = self.funcs[q]
         if target is None or not self.is_new_function(target.qual) or target is fi:
             return None, None
